@@ -465,6 +465,8 @@ func rulePF5() Rule {
 			info := f.Info()
 			var parseIdx, deferIdx = -1, -1
 			var fl *ast.FuncLit
+			var handlerFn *core.Func
+			var handlerCall *ast.CallExpr
 			for i, s := range f.Body.List {
 				if l := deferredLit(s); l != nil && deferIdx < 0 {
 					has := false
@@ -476,6 +478,24 @@ func rulePF5() Rule {
 					})
 					if has {
 						deferIdx, fl = i, l
+					}
+				}
+				// `defer l.rescue(&err)`: a declared function that recovers
+				if ds, ok := s.(*ast.DeferStmt); ok && deferIdx < 0 {
+					if fo := core.StaticCallee(info, ds.Call); fo != nil {
+						if h := c.P.FuncOf(fo); h != nil && h.Body != nil && h.Decl != nil {
+							has := false
+							hi := h.Info()
+							ast.Inspect(h.Body, func(n ast.Node) bool {
+								if call, ok := n.(*ast.CallExpr); ok && isBuiltinCall(hi, call, "recover") {
+									has = true
+								}
+								return true
+							})
+							if has {
+								deferIdx, handlerFn, handlerCall = i, h, ds.Call
+							}
+						}
 					}
 				}
 				ast.Inspect(s, func(n ast.Node) bool {
@@ -496,6 +516,52 @@ func rulePF5() Rule {
 				rr.Unk(f, key, f.Pos(), "no top-level yyParse call found in Eval")
 			case deferIdx < 0 || deferIdx > parseIdx:
 				rr.Bad(f, key, f.Body.List[parseIdx].Pos(), "yyParse is not preceded by a deferred closure calling recover(): a division by zero or negative shift would panic in the caller")
+			case handlerFn != nil:
+				// the handler is handed the address of the error result and stores through it
+				sets := false
+				res := f.Type.Results
+				hi := handlerFn.Info()
+				k := 0
+				for _, fld := range handlerFn.Type.Params.List {
+					for _, nm := range fld.Names {
+						if k < len(handlerCall.Args) {
+							if u, ok := ast.Unparen(handlerCall.Args[k]).(*ast.UnaryExpr); ok && u.Op == token.AND && res != nil {
+								if id, ok := ast.Unparen(u.X).(*ast.Ident); ok {
+									isErrRes := false
+									for _, rf := range res.List {
+										for _, rn := range rf.Names {
+											if info.Uses[id] != nil && info.Uses[id] == info.Defs[rn] && types.Identical(info.Defs[rn].Type(), types.Universe.Lookup("error").Type()) {
+												isErrRes = true
+											}
+										}
+									}
+									if isErrRes {
+										pobj := hi.Defs[nm]
+										ast.Inspect(handlerFn.Body, func(n ast.Node) bool {
+											if as, ok := n.(*ast.AssignStmt); ok {
+												for _, l := range as.Lhs {
+													if st, ok := ast.Unparen(l).(*ast.StarExpr); ok {
+														if pid, ok := ast.Unparen(st.X).(*ast.Ident); ok && hi.Uses[pid] == pobj && pobj != nil {
+															sets = true
+														}
+													}
+												}
+											}
+											return true
+										})
+									}
+								}
+							}
+						}
+						k++
+					}
+				}
+				if sets {
+					rr.OK(f, key, handlerCall.Pos(), "dominates", "the deferred "+handlerFn.Short+" recovers and stores into the error result it is handed")
+				} else {
+					rr.Bad(f, key, handlerCall.Pos(), "the deferred recover handler is not handed the error result (or does not store through it): a run-time fault would be swallowed")
+				}
+				fl = &ast.FuncLit{Type: &ast.FuncType{}, Body: handlerFn.Body}
 			default:
 				// the handler must set the error result
 				sets := false
